@@ -66,6 +66,7 @@ func readers(n int, allSplits bool) []readerSpec {
 	rs := []readerSpec{
 		{"whole", func(pos, want int) int { return want }},
 		{"one-byte", func(pos, want int) int { return 1 }},
+		{"whole-then-more-data", func(pos, want int) int { return want }},
 	}
 	if allSplits {
 		for s := 1; s < n; s++ {
@@ -183,6 +184,13 @@ func roundTrip(cfg idxbfs.Config, ix *index.Hnsw, allSplits bool) (string, strin
 					t = index.NewHnsw(2, idxlib.Space(cfg.Space), cfg.Options()...)
 				}
 				r := &countingReader{data: data, plan: rs.plan}
+				if rs.name == "whole-then-more-data" {
+					if ix.Len() == 0 {
+						continue // the encoding of an empty index (nothing after the optional header) is not self-delimiting: nothing may follow it
+					}
+					// the snapshot is followed by other data in the same stream (a generous reader hands out as much as asked)
+					r.data = append(append([]byte{}, data...), bytes.Repeat([]byte{0xEE}, 6000)...)
+				}
 				var m0, m1 runtime.MemStats
 				runtime.ReadMemStats(&m0)
 				err, pan := load(t, r, header)
@@ -196,7 +204,7 @@ func roundTrip(cfg idxbfs.Config, ix *index.Hnsw, allSplits bool) (string, strin
 					return "load-error:" + readerClass(rs.name), fmt.Sprintf("%s failed: %v", where, err)
 				}
 				if r.pos != len(data) {
-					return "stream-not-consumed", fmt.Sprintf("%s consumed %d of %d bytes", where, r.pos, len(data))
+					return "stream-not-consumed-exactly", fmt.Sprintf("%s consumed %d bytes, the snapshot has %d", where, r.pos, len(data))
 				}
 				after := liveDump(t.VerifDump())
 				if after != before {
@@ -373,6 +381,56 @@ func main() {
 			res.St.Complete = res.St.Complete && st.Complete
 			if st.DepthCompleted < res.St.DepthCompleted {
 				res.St.DepthCompleted = st.DepthCompleted
+			}
+		}
+		if si == 0 {
+			// directed histories deeper than the BFS: states in which a live item still carries a link to a REMOVED
+			// object whose id has been stored again since (pruning leaves a one-directional link, the target is
+			// removed, the same id is inserted or updated afterwards). Found by a search over random histories for
+			// exactly this shape of state; kept as fixed cases.
+			I := func(id, vec, lvl int) idxbfs.Op { return idxbfs.Op{Kind: "ins", ID: id, Vec: vec, Level: lvl} }
+			U := func(id, vec int) idxbfs.Op { return idxbfs.Op{Kind: "upd", ID: id, Vec: vec} }
+			R := func(id int) idxbfs.Op { return idxbfs.Op{Kind: "rem", ID: id} }
+			for _, dc := range []struct {
+				cfg  idxbfs.Config
+				path []idxbfs.Op
+			}{
+				{idxbfs.Config{Space: "euclidean", M: 1, Ef: 2, EfC: 3}, []idxbfs.Op{I(0, 3, 1), I(3, 5, 0), I(2, 3, 0), I(4, 3, 0), R(4), U(0, 0)}},
+				{idxbfs.Config{Space: "euclidean", M: 1, Ef: 1, EfC: 1}, []idxbfs.Op{I(3, 5, 1), I(1, 1, 1), I(4, 2, 1), I(2, 5, 1), U(1, 4), U(1, 4)}},
+				{idxbfs.Config{Space: "euclidean", M: 1, Ef: 1, EfC: 1}, []idxbfs.Op{I(4, 2, 1), I(0, 3, 1), I(3, 0, 1), I(1, 3, 1), R(1), U(0, 0), I(1, 2, 0)}},
+				{idxbfs.Config{Space: "euclidean", M: 1, Ef: 2, EfC: 3}, []idxbfs.Op{I(1, 1, 0), I(0, 5, 0), I(4, 0, 1), I(3, 4, 1), U(1, 5), R(1), I(1, 3, 0), I(0, 2, 1)}},
+			} {
+				vrt.InactiveMapPolicy = 0
+				w, k, _ := idxbfs.Build(dc.cfg, dc.path)
+				res.St.Transitions++
+				if k != "" {
+					continue // C01's business
+				}
+				stale := false
+				d := w.Ix.VerifDump()
+				live := map[string]bool{}
+				for _, v := range d.Vertices {
+					live[string(v.Id[:])] = true
+				}
+				for _, v := range d.Vertices {
+					for _, es := range v.Edges {
+						for _, e := range es {
+							stale = stale || (e.Deleted && live[string(e.To[:])])
+						}
+					}
+				}
+				if !stale {
+					res.St.Outcomes["directed: state shape not reached"]++
+				} else {
+					res.St.Outcomes["directed: live item links a removed object whose id is stored again"]++
+				}
+				if k, d := roundTrip(dc.cfg, w.Ix, true); k != "" {
+					res.Violations = append(res.Violations, struct {
+						Key, Desc string
+						Path      []idxbfs.Op
+						Cfg       idxbfs.Config
+					}{k + ":stale-link-to-reused-id", d, dc.path, dc.cfg})
+				}
 			}
 		}
 		if len(res.Violations) > 30 {
